@@ -151,7 +151,28 @@ def gco(node):
     return node["ret"]
 
 
-RAW = {"fa": fa, "fb": fb, "fc": fc, "ga": ga, "fd": fd, "gst": gst, "gco": gco}
+def _mk_h():
+    def h(node):
+        u = node["u0"]
+        w = node["w0"]
+        _kids(node["pre"])
+        if node["ru"] is not None:
+            u = node["ru"]
+        if node["rw"] is not None:
+            w = node["rw"]
+        _kids(node["post"])
+        if node["raises"]:
+            raise Boom(node["id"])
+        return node["ret"]
+
+    return h
+
+
+# two distinct functions made by one def: same module, same qualified name, same code
+ha = _mk_h()
+hb = _mk_h()
+
+RAW = {"fa": fa, "fb": fb, "fc": fc, "ga": ga, "fd": fd, "gst": gst, "gco": gco, "ha": ha, "hb": hb}
 DISPATCH.update(RAW)
 
 
